@@ -57,6 +57,42 @@ impl<K: Eq, V> HashMap<K, V> {
     pub fn values(&self) -> impl Iterator<Item = &V> { self.entries.iter().map(|(_, v)| v) }
     pub fn values_mut(&mut self) -> impl Iterator<Item = &mut V> { self.entries.iter_mut().map(|(_, v)| v) }
     pub fn entry(&mut self, k: K) -> Entry<'_, K, V> { Entry { map: self, key: k } }
+    pub fn keys(&self) -> impl Iterator<Item = &K> { self.entries.iter().map(|(k, _)| k) }
+    pub fn clear(&mut self) { self.entries.clear() }
+    pub fn retain<F: FnMut(&K, &mut V) -> bool>(&mut self, mut f: F) { self.entries.retain_mut(|(k, v)| f(k, v)) }
+    pub fn drain(&mut self) -> std::vec::Drain<'_, (K, V)> { self.entries.drain(..) }
+    pub fn get_key_value<Q>(&self, k: &Q) -> Option<(&K, &V)> where K: Borrow<Q>, Q: Eq + ?Sized {
+        let i = self.position(k)?;
+        Some((&self.entries[i].0, &self.entries[i].1))
+    }
+    pub fn remove_entry<Q>(&mut self, k: &Q) -> Option<(K, V)> where K: Borrow<Q>, Q: Eq + ?Sized {
+        let i = self.position(k)?;
+        Some(self.entries.swap_remove(i))
+    }
+    pub fn with_capacity(_n: usize) -> Self { Self::new() }
+    pub fn into_values(self) -> impl Iterator<Item = V> { self.entries.into_iter().map(|(_, v)| v) }
+    pub fn into_keys(self) -> impl Iterator<Item = K> { self.entries.into_iter().map(|(k, _)| k) }
+}
+impl<K, V> IntoIterator for HashMap<K, V> {
+    type Item = (K, V);
+    type IntoIter = std::vec::IntoIter<(K, V)>;
+    fn into_iter(self) -> Self::IntoIter { self.entries.into_iter() }
+}
+impl<'a, K, V> IntoIterator for &'a HashMap<K, V> {
+    type Item = (&'a K, &'a V);
+    type IntoIter = std::iter::Map<std::slice::Iter<'a, (K, V)>, fn(&'a (K, V)) -> (&'a K, &'a V)>;
+    fn into_iter(self) -> Self::IntoIter { self.entries.iter().map((|(k, v)| (k, v)) as fn(&'a (K, V)) -> (&'a K, &'a V)) }
+}
+impl<'a, K, V> IntoIterator for &'a mut HashMap<K, V> {
+    type Item = (&'a K, &'a mut V);
+    type IntoIter = std::iter::Map<std::slice::IterMut<'a, (K, V)>, fn(&'a mut (K, V)) -> (&'a K, &'a mut V)>;
+    fn into_iter(self) -> Self::IntoIter { self.entries.iter_mut().map((|(k, v)| (&*k, v)) as fn(&'a mut (K, V)) -> (&'a K, &'a mut V)) }
+}
+impl<K: Eq, V> FromIterator<(K, V)> for HashMap<K, V> {
+    fn from_iter<I: IntoIterator<Item = (K, V)>>(it: I) -> Self { let mut m = Self::new(); for (k, v) in it { m.insert(k, v); } m }
+}
+impl<K: Eq, V> Extend<(K, V)> for HashMap<K, V> {
+    fn extend<I: IntoIterator<Item = (K, V)>>(&mut self, it: I) { for (k, v) in it { self.insert(k, v); } }
 }
 
 pub struct Entry<'a, K, V> {
@@ -76,6 +112,14 @@ impl<'a, K: Eq, V> Entry<'a, K, V> {
         };
         &mut self.map.entries[i].1
     }
+    pub fn or_insert_with<F: FnOnce() -> V>(self, f: F) -> &'a mut V {
+        let i = match self.map.position(&self.key) {
+            Some(i) => i,
+            None => { self.map.entries.push((self.key, f())); self.map.entries.len() - 1 }
+        };
+        &mut self.map.entries[i].1
+    }
+    pub fn or_default(self) -> &'a mut V where V: Default { self.or_insert_with(V::default) }
 }
 
 #[derive(Clone)]
@@ -107,6 +151,36 @@ impl<T: Eq> HashSet<T> {
         true
     }
     pub fn iter(&self) -> std::slice::Iter<'_, T> { self.entries.iter() }
+    pub fn remove<Q>(&mut self, v: &Q) -> bool where T: Borrow<Q>, Q: Eq + ?Sized {
+        let mut i = 0;
+        while i < self.entries.len() {
+            if self.entries[i].borrow() == v { self.entries.swap_remove(i); return true; }
+            i += 1;
+        }
+        false
+    }
+    pub fn clear(&mut self) { self.entries.clear() }
+    pub fn with_capacity(_n: usize) -> Self { Self::new() }
+    pub fn retain<F: FnMut(&T) -> bool>(&mut self, f: F) { self.entries.retain(f) }
+}
+impl<T> Default for HashSet<T> {
+    fn default() -> Self { Self { entries: Vec::new() } }
+}
+impl<T> IntoIterator for HashSet<T> {
+    type Item = T;
+    type IntoIter = std::vec::IntoIter<T>;
+    fn into_iter(self) -> Self::IntoIter { self.entries.into_iter() }
+}
+impl<'a, T> IntoIterator for &'a HashSet<T> {
+    type Item = &'a T;
+    type IntoIter = std::slice::Iter<'a, T>;
+    fn into_iter(self) -> Self::IntoIter { self.entries.iter() }
+}
+impl<T: Eq> FromIterator<T> for HashSet<T> {
+    fn from_iter<I: IntoIterator<Item = T>>(it: I) -> Self { let mut m = Self::new(); for v in it { m.insert(v); } m }
+}
+impl<T: Eq> Extend<T> for HashSet<T> {
+    fn extend<I: IntoIterator<Item = T>>(&mut self, it: I) { for v in it { self.insert(v); } }
 }
 
 /// Keys of the `BTreeMap` stand-in map into a small index space (the crate only uses `u8`
@@ -231,6 +305,48 @@ impl<K, V> IntoIterator for BTreeMap<K, V> {
     type Item = (K, V);
     type IntoIter = std::vec::IntoIter<(K, V)>;
     fn into_iter(self) -> Self::IntoIter { self.entries.into_iter() }
+}
+impl<'a, K, V> IntoIterator for &'a BTreeMap<K, V> {
+    type Item = (&'a K, &'a V);
+    type IntoIter = std::iter::Map<std::slice::Iter<'a, (K, V)>, fn(&'a (K, V)) -> (&'a K, &'a V)>;
+    fn into_iter(self) -> Self::IntoIter { self.entries.iter().map((|(k, v)| (k, v)) as fn(&'a (K, V)) -> (&'a K, &'a V)) }
+}
+impl<'a, K, V> IntoIterator for &'a mut BTreeMap<K, V> {
+    type Item = (&'a K, &'a mut V);
+    type IntoIter = std::iter::Map<std::slice::IterMut<'a, (K, V)>, fn(&'a mut (K, V)) -> (&'a K, &'a mut V)>;
+    fn into_iter(self) -> Self::IntoIter { self.entries.iter_mut().map((|(k, v)| (&*k, v)) as fn(&'a mut (K, V)) -> (&'a K, &'a mut V)) }
+}
+impl<K: SlotKey, V> BTreeMap<K, V> {
+    /// entries with lo <= key (and key < hi when given), ascending
+    pub fn range_from(&self, lo: &K) -> impl DoubleEndedIterator<Item = (&K, &V)> {
+        let lo = *lo;
+        self.entries.iter().filter(move |(k, _)| *k >= lo).map(|(k, v)| (k, v))
+    }
+    pub fn range<R: std::ops::RangeBounds<K>>(&self, r: R) -> impl DoubleEndedIterator<Item = (&K, &V)> {
+        self.entries.iter().filter(move |(k, _)| r.contains(k)).map(|(k, v)| (k, v))
+    }
+    pub fn range_mut<R: std::ops::RangeBounds<K>>(&mut self, r: R) -> impl DoubleEndedIterator<Item = (&K, &mut V)> {
+        self.entries.iter_mut().filter(move |(k, _)| r.contains(k)).map(|(k, v)| (&*k, v))
+    }
+    pub fn into_values(self) -> impl Iterator<Item = V> { self.entries.into_iter().map(|(_, v)| v) }
+    pub fn pop_first(&mut self) -> Option<(K, V)> {
+        if self.entries.is_empty() { return None; }
+        let (k, v) = self.entries.remove(0);
+        self.pos[k.slot()] = 0;
+        self.reindex_from(0);
+        Some((k, v))
+    }
+    pub fn pop_last(&mut self) -> Option<(K, V)> {
+        let (k, v) = self.entries.pop()?;
+        self.pos[k.slot()] = 0;
+        Some((k, v))
+    }
+}
+impl<K: SlotKey, V> FromIterator<(K, V)> for BTreeMap<K, V> {
+    fn from_iter<I: IntoIterator<Item = (K, V)>>(it: I) -> Self { let mut m = Self::new(); for (k, v) in it { m.insert(k, v); } m }
+}
+impl<K: SlotKey, V> Extend<(K, V)> for BTreeMap<K, V> {
+    fn extend<I: IntoIterator<Item = (K, V)>>(&mut self, it: I) { for (k, v) in it { self.insert(k, v); } }
 }
 pub struct BEntry<'a, K, V> { map: &'a mut BTreeMap<K, V>, key: K }
 impl<'a, K: SlotKey, V> BEntry<'a, K, V> {
